@@ -1139,41 +1139,123 @@ fn c19_partial(out: &mut SeqOut) {
     }
 }
 
-pub fn c19(_seed: u64) -> SeqOut {
-    let mut out = SeqOut::new();
-    mon::TRACK_OBJS.store(false, SeqCst);
-    let mk = |key: i32, salt: u32| Rc::new(Item { key, salt, next: AtomicRc::null() });
+/// Referents of several alignments for the C19 pool (an over-aligned referent has more tag bits).
+pub trait KeyItem: RcObject + Ord + Hash + Sized + 'static {
+    const NAME: &'static str;
+    fn mk(key: i32, salt: u32) -> Self;
+}
+impl KeyItem for Item {
+    const NAME: &'static str = "align8";
+    fn mk(key: i32, salt: u32) -> Self {
+        Item { key, salt, next: AtomicRc::null() }
+    }
+}
+macro_rules! aligned_item {
+    ($name:ident, $al:literal, $label:literal) => {
+        #[repr(align($al))]
+        pub struct $name {
+            key: i32,
+            #[allow(dead_code)]
+            salt: u32,
+            next: AtomicRc<$name>,
+        }
+        unsafe impl RcObject for $name {
+            fn pop_edges(&mut self, out: &mut Vec<Rc<Self>>) {
+                out.push(self.next.take());
+            }
+        }
+        impl PartialEq for $name {
+            fn eq(&self, o: &Self) -> bool {
+                self.key == o.key
+            }
+        }
+        impl Eq for $name {}
+        impl PartialOrd for $name {
+            fn partial_cmp(&self, o: &Self) -> Option<std::cmp::Ordering> {
+                Some(self.cmp(o))
+            }
+        }
+        impl Ord for $name {
+            fn cmp(&self, o: &Self) -> std::cmp::Ordering {
+                self.key.cmp(&o.key)
+            }
+        }
+        impl Hash for $name {
+            fn hash<H: Hasher>(&self, s: &mut H) {
+                self.key.hash(s)
+            }
+        }
+        impl KeyItem for $name {
+            const NAME: &'static str = $label;
+            fn mk(key: i32, salt: u32) -> Self {
+                $name { key, salt, next: AtomicRc::null() }
+            }
+        }
+    };
+}
+aligned_item!(Item16, 16, "align16");
+aligned_item!(Item64, 64, "align64");
+
+/// One pool per referent type. The model of every entry (`None` for a null, the referent otherwise) is what the
+/// harness knows from how it built the entry, not what the library's `as_ref` says.
+fn c19_pool<T: KeyItem>(out: &mut SeqOut, tags: &[usize], null_tags: &[usize], names: &mut Vec<String>) {
+    let mk = |key: i32, salt: u32| Rc::new(T::mk(key, salt));
     let a = mk(1, 10);
     let b = mk(1, 20); // equal content, distinct object
     let c = mk(2, 30);
     let d = mk(-5, 40);
-    // pool of Rc values: (description, Rc, identity key)
-    let mut pool: Vec<(String, Rc<Item>, (usize, usize))> = Vec::new();
-    pool.push(("null".into(), Rc::null(), (0, 0)));
-    pool.push(("null tag 1".into(), Rc::null().with_tag(1), (0, 1)));
-    pool.push(("null tag 5".into(), Rc::null().with_tag(5), (0, 5)));
+    struct Ent<T: KeyItem> {
+        name: String,
+        rc: Rc<T>,
+        ident: (usize, usize),
+        model: Option<*const T>,
+    }
+    let mut pool: Vec<Ent<T>> = Vec::new();
+    pool.push(Ent { name: "null".into(), rc: Rc::null(), ident: (0, 0), model: None });
+    for &t in null_tags {
+        pool.push(Ent { name: format!("null tag {}", t), rc: Rc::null().with_tag(t), ident: (0, t), model: None });
+    }
     for (name, r) in [("A", &a), ("B", &b), ("C", &c), ("D", &d)] {
-        pool.push((format!("{}", name), r.clone(), (r.verif_addr(), 0)));
-        pool.push((format!("{} tag 3", name), r.clone().with_tag(3), (r.verif_addr(), 3)));
+        // the untagged, never stored pointer defines the referent
+        let referent = r.as_ref().unwrap() as *const T;
+        pool.push(Ent { name: name.to_string(), rc: r.clone(), ident: (r.verif_addr(), 0), model: Some(referent) });
+        for &t in tags {
+            if t == 0 || (name != "A" && t != tags[tags.len() - 1]) {
+                continue;
+            }
+            pool.push(Ent { name: format!("{} tag {}", name, t), rc: r.clone().with_tag(t), ident: (r.verif_addr(), t), model: Some(referent) });
+        }
     }
     // A loaded at 3 different epochs (different internal stamps), as Rc via counted()
-    let cell = AtomicRc::from(a.clone().with_tag(2));
+    let st = tags[tags.len() / 2];
+    let cell = AtomicRc::from(a.clone().with_tag(st));
     for i in 0..3 {
         churn(1 + i);
         let g = circ::cs();
         let r = cell.load(SeqCst, &g).counted();
         cell.store(r.clone(), SeqCst, &g);
         let r2 = cell.load(SeqCst, &g).counted();
-        pool.push((format!("A tag 2 loaded at stamp {}", r2.verif_high_tag()), r2, (a.verif_addr(), 2)));
+        pool.push(Ent { name: format!("A tag {} loaded at stamp {}", st, r2.verif_high_tag()), rc: r2, ident: (a.verif_addr(), st), model: Some(a.as_ref().unwrap() as *const T) });
         drop(r);
     }
     let g = circ::cs();
-    let opt = |r: &Rc<Item>| r.as_ref().map(|x| x.key);
+    let mref = |p: Option<*const T>| -> Option<&T> { p.map(|q| unsafe { &*q }) };
     let n = pool.len();
     for i in 0..n {
+        // the accessors agree with what the harness knows about the entry
+        mon::eval("trait-model");
+        let x = &pool[i].rc;
+        if x.is_null() != pool[i].model.is_none() || x.snapshot(&g).is_null() != pool[i].model.is_none() {
+            report("C19", "C19|is_null-wrong", format!("{} [{}]: is_null() = {}", T::NAME, pool[i].name, x.is_null()));
+            continue;
+        }
+        if x.as_ref().map(|r| r as *const T) != pool[i].model || x.snapshot(&g).as_ref().map(|r| r as *const T) != pool[i].model {
+            report("C19", "C19|as_ref-wrong-referent", format!("{} [{}]: as_ref() = {:?}, the referent is {:?}", T::NAME, pool[i].name, x.as_ref().map(|r| r as *const T), pool[i].model));
+            continue;
+        }
         for j in 0..n {
-            let (x, y) = (&pool[i].1, &pool[j].1);
-            let (ox, oy) = (x.as_ref(), y.as_ref());
+            let (x, y) = (&pool[i].rc, &pool[j].rc);
+            let (ox, oy) = (mref(pool[i].model), mref(pool[j].model));
             mon::eval("trait-model");
             let (sx, sy) = (x.snapshot(&g), y.snapshot(&g));
             let mut bad = Vec::new();
@@ -1192,7 +1274,7 @@ pub fn c19(_seed: u64) -> SeqOut {
             if x == y && (hash1(x) != hash1(y) || hash2(&sx) != hash2(&sy)) {
                 bad.push("a == b but hashes differ".into());
             }
-            let same = pool[i].2 == pool[j].2;
+            let same = pool[i].ident == pool[j].ident;
             if x.ptr_eq(y) != same || sx.ptr_eq(sy) != same {
                 bad.push(format!("ptr_eq: Rc {} Snapshot {} model {} (identity+tag, stamps ignored)", x.ptr_eq(y), sx.ptr_eq(sy), same));
             }
@@ -1213,32 +1295,43 @@ pub fn c19(_seed: u64) -> SeqOut {
                 bad.push("null != null".into());
             }
             for b in bad {
-                report("C19", &format!("C19|trait-model-mismatch|{}", b.split(':').next().unwrap_or("")), format!("[{}] vs [{}]: {}", pool[i].0, pool[j].0, b));
+                report("C19", &format!("C19|trait-model-mismatch|{}", b.split(':').next().unwrap_or("")), format!("{} [{}] vs [{}]: {}", T::NAME, pool[i].name, pool[j].name, b));
             }
-            out.case(h(&[40, i as u64, j as u64]), || J::obj().set("a", pool[i].0.clone()).set("b", pool[j].0.clone()).set("eq", x == y).set("cmp", format!("{:?}", x.cmp(y))).set("ptr_eq", x.ptr_eq(y)));
+            out.case(h(&[40, std::mem::align_of::<T>() as u64, i as u64, j as u64]), || {
+                J::obj().set("referent", T::NAME).set("a", pool[i].name.clone()).set("b", pool[j].name.clone()).set("eq", x == y).set("cmp", format!("{:?}", x.cmp(y))).set("ptr_eq", x.ptr_eq(y))
+            });
             // transitivity over triples
             for k in 0..n {
-                let z = &pool[k].1;
+                let z = &pool[k].rc;
                 mon::eval("trait-model");
                 if x == y && y == z && x != z {
-                    report("C19", "C19|eq-not-transitive", format!("[{}] [{}] [{}]", pool[i].0, pool[j].0, pool[k].0));
+                    report("C19", "C19|eq-not-transitive", format!("{} [{}] [{}] [{}]", T::NAME, pool[i].name, pool[j].name, pool[k].name));
                 }
                 if x <= y && y <= z && !(x <= z) {
-                    report("C19", "C19|ord-not-transitive", format!("[{}] [{}] [{}]", pool[i].0, pool[j].0, pool[k].0));
+                    report("C19", "C19|ord-not-transitive", format!("{} [{}] [{}] [{}]", T::NAME, pool[i].name, pool[j].name, pool[k].name));
                 }
                 out.evaluations += 1;
             }
-            let _ = opt;
         }
-        if !(pool[i].1 == pool[i].1) {
-            report("C19", "C19|eq-not-reflexive", pool[i].0.clone());
+        if !(pool[i].rc == pool[i].rc) {
+            report("C19", "C19|eq-not-reflexive", pool[i].name.clone());
         }
     }
-    let _ = (a.as_ref().unwrap().salt, 0);
     drop(g);
+    names.extend(pool.iter().map(|p| format!("{}: {}", T::NAME, p.name)));
+}
+
+pub fn c19(_seed: u64) -> SeqOut {
+    let mut out = SeqOut::new();
+    mon::TRACK_OBJS.store(false, SeqCst);
+    let mut names = Vec::new();
+    // tags up to the largest one the referent's alignment allows; nulls also with the largest tag
+    c19_pool::<Item>(&mut out, &[0, 2, 3, 7], &[1, 5, 7], &mut names);
+    c19_pool::<Item16>(&mut out, &[0, 3, 8, 15], &[1, 7, 8, 15], &mut names);
+    c19_pool::<Item64>(&mut out, &[0, 5, 8, 40, 63], &[1, 7, 8, 32, 63], &mut names);
     c19_partial(&mut out);
     out.exhaustive = true;
-    out.extra = J::obj().set("pool", J::A(pool.iter().map(|p| J::S(p.0.clone())).collect()));
+    out.extra = J::obj().set("pool", J::A(names.into_iter().map(J::S).collect()));
     out
 }
 
@@ -1249,13 +1342,21 @@ pub struct LNode {
     drops: &'static AtomicUsize,
     last_drop_epoch: &'static AtomicUsize,
     next: [AtomicRc<LNode>; 2],
+    /// hand the edges over with `swap(null)` instead of `take()` (both are legal in `pop_edges`)
+    swap_pop: bool,
 }
 unsafe impl RcObject for LNode {
     fn pop_edges(&mut self, out: &mut Vec<Rc<Self>>) {
-        out.push(self.next[0].take());
-        out.push(self.next[1].take());
+        if self.swap_pop {
+            out.push(self.next[0].swap(Rc::null(), SeqCst));
+            out.push(self.next[1].swap(Rc::null(), SeqCst));
+        } else {
+            out.push(self.next[0].take());
+            out.push(self.next[1].take());
+        }
     }
 }
+static L_SWAP: std::sync::atomic::AtomicBool = std::sync::atomic::AtomicBool::new(false);
 impl Drop for LNode {
     fn drop(&mut self) {
         self.drops.fetch_add(1, Relaxed);
@@ -1265,7 +1366,7 @@ impl Drop for LNode {
 static L_DROPS: AtomicUsize = AtomicUsize::new(0);
 static L_LAST: AtomicUsize = AtomicUsize::new(0);
 fn lnode() -> Rc<LNode> {
-    Rc::new(LNode { drops: &L_DROPS, last_drop_epoch: &L_LAST, next: [AtomicRc::null(), AtomicRc::null()] })
+    Rc::new(LNode { drops: &L_DROPS, last_drop_epoch: &L_LAST, next: [AtomicRc::null(), AtomicRc::null()], swap_pop: L_SWAP.load(SeqCst) })
 }
 
 /// `via`: 0 = all links through edge 0, 1 = through edge 1 (edge 0 stays null), 2 = alternating
@@ -1452,6 +1553,18 @@ pub fn c06(_seed: u64, thorough: bool) -> SeqOut {
         }
         run(&mut out, &mut worst, &mut max_ratio, shape, 1500, 8, 5, Some(1024), None);
     }
+    // nodes whose pop_edges hands the edges over with swap(null) instead of take()
+    L_SWAP.store(true, SeqCst);
+    for &n in &[50usize, 400, 3000] {
+        for &r in &[0usize, 3, 6, 9, 12, 15] {
+            for &age in &[3usize, 8] {
+                run(&mut out, &mut worst, &mut max_ratio, "chain-swap-pop", n, age, r, None, None);
+            }
+        }
+    }
+    run(&mut out, &mut worst, &mut max_ratio, "chain-swap-pop", 1500, 8, 5, Some(1024), None);
+    run(&mut out, &mut worst, &mut max_ratio, "tree-swap-pop", 0, 8, 7, None, Some((10, 2)));
+    L_SWAP.store(false, SeqCst);
     // trees
     let trees: Vec<(u32, usize)> = if thorough { vec![(3, 2), (10, 2), (14, 2), (17, 2), (20, 1), (1, 2)] } else { vec![(3, 2), (10, 2), (13, 2), (20, 1)] };
     for &(d, a) in &trees {
@@ -1603,9 +1716,9 @@ pub fn c06(_seed: u64, thorough: bool) -> SeqOut {
     // destruction attempt is pending
     for &n in &[100usize, 1500] {
         for via in 0..2usize {
-            for at in 0..=3usize {
+            for at in 0..=6usize {
                 for &r in &[0usize, 4, 9, 15] {
-                    for pos in [0usize, 1024] {
+                    for (pos, hold) in [(0usize, false), (1024, false), (0, true), (1024, true)] {
                         if pos >= n {
                             continue;
                         }
@@ -1630,8 +1743,24 @@ pub fn c06(_seed: u64, thorough: bool) -> SeqOut {
                             w.snapshot(&g).upgrade().map(|s| s.counted())
                         };
                         let revived = got.is_some();
+                        if hold && revived {
+                            // the regained owner is kept for a while: the node and everything behind it must survive
+                            let at_upgrade = L_DROPS.load(SeqCst);
+                            churn(20);
+                            mon::eval("latency-bound");
+                            let d = L_DROPS.load(SeqCst);
+                            if d > pos || at_upgrade > pos {
+                                report(
+                                    "C06",
+                                    "C06|survivor-destructed|reacquired-and-held",
+                                    format!("chain n={} residue={}: node {} was re-acquired {} rounds after the head was dropped and is held, but {} nodes were destructed (only the {} in front of it may be)", n, r, pos, at, d, pos),
+                                );
+                            }
+                        }
                         drop(got);
                         let _ = before;
+                        // the latency that counts starts when the regained owner is released
+                        let e0 = if hold && revived { verif::global_epoch() } else { e0 };
                         let mut rounds = 0;
                         let budget_rounds = 40 * (2 + n / 1024) + 200;
                         while L_DROPS.load(SeqCst) < n && rounds < budget_rounds {
@@ -1651,7 +1780,7 @@ pub fn c06(_seed: u64, thorough: bool) -> SeqOut {
                             report("C06", "C06|latency-exceeds-bound|reacquired-and-released", format!("chain n={} residue={}: {} advances (bound {})", n, r, adv, bound));
                         }
                         drop(w);
-                        out.case(h(&[52, n as u64, via as u64, at as u64, r as u64, pos as u64, revived as u64]), || {
+                        out.case(h(&[52, n as u64, via as u64, at as u64, r as u64, pos as u64, revived as u64, hold as u64]), || {
                             J::obj().set("shape", "chain-reacquired").set("n", n).set("pos", pos).set("rounds_before_reacquire", at).set("revived", revived).set("advances", adv)
                         });
                     }
